@@ -2309,6 +2309,10 @@ def unique(a, return_counts=False, return_index=False, axis=None):
     return outs[0] if len(outs) == 1 else tuple(outs)
 
 
+def union1d(a, b):
+    return unique(concatenate([asarray(a).ravel(), asarray(b).ravel()]))
+
+
 def bincount(x, weights=None, minlength=0):
     x = asarray(x)
     xs = x._cells()
